@@ -197,7 +197,35 @@ pub fn family(name: &str) -> Family {
         "args" => {
             let mut f = family("edit");
             f.name = "args";
-            f.probes = &["args"];
+            f.alphabet.extend(ops(&[
+                "add-dim A anarchy",
+                "add-dim H hierarchy",
+                "add-dim A hierarchy",
+                "del-dim Z",
+                "add Z::a classic",
+                "add A::x classic",
+                "add H::lo hybrid",
+                "add H::new classic after nope",
+                "add A::v classic after nope",
+                "del Z::a",
+                "del A::nope",
+                "rename Z::a q",
+                "rename A::nope q",
+                "rename A::x y",
+                "rename H::lo hi",
+                "disable Z::a",
+                "disable A::nope",
+                "rekey A::nope",
+                "rekey Z::a",
+                "rekey *",
+                "rekey A::x",
+                "prune A::nope",
+                "prune *",
+                "keygen A::nope",
+                "keygen Z::a && A::x",
+            ]));
+            f.enc_menu.extend(["Z::a", "A::nope", "A::x && A::y", "A::v"]);
+            f.probes = &["forged"];
             f
         }
         "failrot" => {
@@ -205,7 +233,7 @@ pub fn family(name: &str) -> Family {
             f.name = "failrot";
             f.alphabet.extend(ops(&["add A::z classic", "disable A::y", "del A::x", "update", "snapshot", "restore"]));
             f.rt_bound = 1;
-            f.probes = &["fail"];
+            f.probes = &["forged"];
             f
         }
         _ => machinery(&format!("unknown family {name}")),
